@@ -142,99 +142,19 @@ func (v *Vue) evalElseIfChain(ctx VueContext, node *html.Node, nodes []*html.Nod
 	return result, lastChainNodeIdx, nil
 }
 
-// evaluateNodeAsElement evaluates a single element node with its v-for and other directives.
-// This is used internally by the else-if chain handler.
+// evaluateNodeAsElement evaluates the member that a v-if chain (or the v-else of an empty
+// v-for) selected. The member is an element like any other once it is selected: it is handed
+// back to evaluate() without the chain directive that selected it, so that everything else it
+// carries - v-for, v-once, v-show, v-text, v-html, include, slot, bindings - is handled by the
+// one implementation that handles it everywhere else.
 func (v *Vue) evaluateNodeAsElement(ctx VueContext, node *html.Node, depth int) ([]*html.Node, error) {
-	var result []*html.Node
+	member := helpers.ShallowCloneWithAttrs(node)
+	helpers.RemoveAttr(member, "v-if")
+	helpers.RemoveAttr(member, "v-else-if")
+	helpers.RemoveAttr(member, "v-else")
+	// The copy is only read: it shares the member's children
+	member.FirstChild = node.FirstChild
+	member.LastChild = node.LastChild
 
-	// Handle v-for if present
-	if vFor := helpers.GetAttr(node, "v-for"); vFor != "" {
-		loopNodes, err := v.evalFor(ctx, node, vFor, depth+1)
-		if err != nil {
-			return nil, err
-		}
-
-		result = append(result, loopNodes...)
-		return result, nil
-	}
-
-	// Special handling for template tags: evaluate bound attributes and set them in current scope
-	if node.Data == "template" {
-		// For templates, bound attributes modify the current scope (don't create new scope)
-		for _, attr := range node.Attr {
-			// Check for bound attributes (: or v-bind:)
-			boundName := attr.Key
-			if strings.HasPrefix(boundName, ":") {
-				boundName = boundName[1:]
-			} else if strings.HasPrefix(boundName, "v-bind:") {
-				boundName = boundName[7:]
-			} else {
-				// Not a bound attribute, skip it
-				continue
-			}
-
-			// Evaluate the bound attribute expression
-			// Use expression evaluator for templates to support literals and expressions
-			expr := strings.TrimSpace(attr.Val)
-			val, err := v.exprEval.Eval(expr, ctx.stack.EnvMap())
-			if err == nil {
-				// Expression evaluated successfully
-				ctx.stack.Set(boundName, val)
-				continue
-			}
-
-			// Fall back to variable resolution if expression evaluation fails
-			valResolved, ok := ctx.stack.Resolve(expr)
-			if ok {
-				ctx.stack.Set(boundName, valResolved)
-			} else {
-				// Variable not found - set to nil
-				ctx.stack.Set(boundName, nil)
-			}
-		}
-
-		// Evaluate children and return them (omitting the template tag)
-		evaluated, err := v.evaluateChildren(ctx, node, depth+1)
-		if err != nil {
-			return nil, err
-		}
-		return evaluated, nil
-	}
-
-	// Regular element node processing (no v-for)
-	hasVHtml := helpers.GetAttr(node, "v-html") != ""
-	var newNode *html.Node
-	if hasVHtml {
-		newNode = helpers.DeepCloneNode(node)
-	} else {
-		newNode = helpers.ShallowCloneWithAttrs(node)
-	}
-
-	if err := v.evalVHtml(ctx, newNode); err != nil {
-		return nil, err
-	}
-	if _, err := v.evalAttributes(ctx, newNode); err != nil {
-		return nil, err
-	}
-
-	if !hasVHtml {
-		ctx.PushTag(node.Data)
-		newChildren, err := v.evaluateChildren(ctx, node, depth+1)
-		ctx.PopTag()
-		if err != nil {
-			return nil, err
-		}
-
-		newNode.FirstChild = nil
-		for i, c := range newChildren {
-			if i == 0 {
-				newNode.FirstChild = c
-			} else {
-				newChildren[i-1].NextSibling = c
-			}
-		}
-	}
-
-	result = append(result, newNode)
-	return result, nil
+	return v.evaluate(ctx, []*html.Node{member}, depth)
 }
